@@ -13,7 +13,7 @@ import json
 
 from . import bytecode, fp, prng, sched, workload
 from .engine_a import FILENAMES, compile_op, zoo_expr
-from .world import World, api_call, snap
+from .world import World, api_call, norm_loc, snap
 
 
 class World06(World):
@@ -65,7 +65,7 @@ class World06(World):
         if not eq[1]:
             loc = fp.diff_path(n0.snap, r.snap) or "?"
             inv = "N1-idempotence" if arg.normalized else "N1-not-canonical"
-            self.violate(inv, "normalize", "%s@%s" % (route_sig(r.route), loc), {"route": r.route, "diff": loc})
+            self.violate(inv, "normalize", "%s@%s" % (route_sig(r.route), norm_loc(loc)), {"route": r.route, "diff": loc})
         elif not strict:
             self.count("strict_only_difference")
         self.event("canon", route_sig(r.route), bool(eq[1]), strict)
